@@ -67,14 +67,29 @@ def parseKw? (a : List String) : Option Kw :=
 def showKind : Kind → String
   | .date => "d"
   | .naive => "n"
-  | .aware z => s!"a{z}"
+  | .aware z o => if o = 0 then s!"a{z}" else s!"a{z}.{o}"
 
 def parseKind? (s : String) : Option Kind :=
   if s == "d" then some .date
   else if s == "n" then some .naive
   else match s.toList with
-    | 'a' :: rest => (String.ofList rest).toNat?.map Kind.aware
+    | 'a' :: rest =>
+      match (String.ofList rest).splitOn "." with
+      | [z] => z.toNat?.map (fun z' => Kind.aware z' 0)
+      | [z, o] => do
+        let z' ← z.toNat?
+        let o' ← o.toNat?
+        pure (Kind.aware z' o')
+      | _ => none
     | _ => none
+
+/-- `(zone, shifted wall time of b, offset)` from the flat list `k off k off …` -/
+def offTable (z : Nat) (bt : DT) : List Int → List (Nat × DT × Int)
+  | k :: o :: rest =>
+    let M := 12 * bt.y + (bt.m - 1) + k
+    let t : DT := { bt with y := M / 12, m := M % 12 + 1, d := min bt.d (Cal.daysInMonth (M / 12) (M % 12 + 1)) }
+    (z, t, o) :: offTable z bt rest
+  | _ => []
 
 def showTemporal (x : Temporal) : String := s!"{showKind x.kind} {x.t.wire}"
 
@@ -160,7 +175,7 @@ def handle (op : String) (args : List String) : Option String :=
   | "rd.diff" => do
       let a ← parseTemporal? (args.take 8)
       let b ← parseTemporal? (args.drop 8)
-      pure (match diff a b with
+      pure (match diff (fun _ _ => 0) a b with
         | none => "fuel"
         | some r => Py.showR showRD r)
   | "rd.diffn" => match args with
@@ -168,10 +183,28 @@ def handle (op : String) (args : List String) : Option String :=
       let n' ← n.toNat?
       let a ← parseTemporal? (rest.take 8)
       let b ← parseTemporal? (rest.drop 8)
-      pure (match diffN n' a b with
+      pure (match diffN (fun _ _ => 0) n' a b with
         | none => "fuel"
         | some r => Py.showR showRD r)
     | _ => none
+  | "rd.diffo" => do
+      -- rd.diffo <a:8> <b:8> <offA µs> <k off>…: utcoffsets tabulated at a's wall time and at the
+      -- whole-month shifts of b's wall time (the only instants the constructor can ask about)
+      let a ← parseTemporal? (args.take 8)
+      let b ← parseTemporal? ((args.drop 8).take 8)
+      let rest ← ((args.drop 16).mapM parseInt?)
+      match rest with
+      | offA :: ks =>
+        let zoneOf : Kind → Nat := fun k => match k with | .aware z _ => z | _ => 0
+        let tab := offTable (zoneOf b.kind) b.t ks
+        let off : Nat → DT → Int := fun z t =>
+          match tab.find? (fun e => e.1 = z ∧ e.2.1 = t) with
+          | some e => e.2.2
+          | none => if z = zoneOf a.kind ∧ t = a.t then offA else offA
+        pure (match diff off a b with
+          | none => "fuel"
+          | some r => Py.showR showRD r)
+      | _ => none
   | _ => none
 
 end Ops.RelativeDelta
